@@ -2,7 +2,7 @@
    G qdd = gamma, tau = 0 on every unactuated coordinate, H qdd + C = tau + G^T lambda row by row, and the exact
    operator reproduces the desired acceleration on every actuated coordinate. *)
 From Coq Require Import List.
-From RV Require Import Scalar Laws ListArr LinDef LinThm ModelDef DynDef ConsDef IdcThm.
+From RV Require Import Scalar Laws ListArr LinDef LinThm ModelDef DynDef ConsDef IdcThm C14Thm DimThm.
 Import ListNotations.
 Section P.
   Context {T : Type} (O : Ops T) {FL : FieldLaws O}.
@@ -18,5 +18,16 @@ Section P.
                         oadd O (vget (o0 O) tau i) (odot O (nth i (mTn O (cG Sy) n) []) lam)) /\
     (relaxed = false -> forall i, i < n -> nth i act false = true -> vget (o0 O) qdd i = vget (o0 O) qdes i).
   Proof. exact (idc_equations O oeqb_spec M w q qd qdes cs act relaxed fext w' Sy qdd tau lam). Qed.
+  Theorem C11_constrained_inverse_dynamics_equations_constructed_models (M : @Model T) (w : @WS T) q qd qdes cs act relaxed fext w' Sy qdd tau lam :
+    WF M -> length act = dof_count M -> length qdes = dof_count M ->
+    inverse_dynamics_constraints O M w q qd qdes cs act relaxed fext = (w', Sy, Some (qdd, tau, lam)) ->
+    let n := dof_count M in
+    mvmul O (cG Sy) qdd = cgamma Sy /\
+    (forall i, i < n -> nth i act false = false -> vget (o0 O) tau i = o0 O) /\
+    (forall i, i < n -> oadd O (odot O (nth i (cH Sy) []) qdd) (vget (o0 O) (cC Sy) i) =
+                        oadd O (vget (o0 O) tau i) (odot O (nth i (mTn O (cG Sy) n) []) lam)) /\
+    (relaxed = false -> forall i, i < n -> nth i act false = true -> vget (o0 O) qdd i = vget (o0 O) qdes i).
+  Proof. intros W. exact (idc_equations_sized O oeqb_spec M w q qd qdes cs act relaxed fext w' Sy qdd tau lam (wf_qdot M W)). Qed.
 End P.
 Print Assumptions C11_constrained_inverse_dynamics_equations.
+Print Assumptions C11_constrained_inverse_dynamics_equations_constructed_models.
